@@ -110,9 +110,9 @@ class Descriptor(Attribute):
         :return: Instance of the corresponding descriptor
         :rtype: Descriptor
         """
-        uuid_value = uuid.value()
-        if uuid_value in Descriptor.desc_types:
-            cls = Descriptor.desc_types[uuid_value]
+        # Only 16-bit UUIDs are registered (UUID.value() raises for a 128-bit UUID)
+        if uuid.type == UUID.TYPE_16 and uuid.value() in Descriptor.desc_types:
+            cls = Descriptor.desc_types[uuid.value()]
             return cls.from_value(characteristic, handle, value)
 
         # Cannot find any class matching the provided UUID, return a generic
